@@ -22,7 +22,7 @@ type entry struct {
 }
 
 func obsEditor(e rosed.Editor) string {
-	if !utf8.ValidString(e.Text) {
+	if !sawRaw && !utf8.ValidString(e.Text) {
 		return "X~invalid"
 	}
 	sub := 0
@@ -392,7 +392,7 @@ func evalStep(pool []entry, step string) (ent entry, obs string) {
 		return entry{ed: e}, "I~" + strconv.Itoa(e.LineCount())
 	case a[0] == "string" && len(a) == 2:
 		s := e.String()
-		if !utf8.ValidString(s) {
+		if !sawRaw && !utf8.ValidString(s) {
 			return entry{ed: e}, "X~invalid"
 		}
 		return entry{ed: e}, "S~" + encText(s)
@@ -416,14 +416,14 @@ func digest(en entry) (out string) {
 	}
 	str := safe(func() string {
 		s := e.String()
-		if !utf8.ValidString(s) {
+		if !sawRaw && !utf8.ValidString(s) {
 			return "X~invalid"
 		}
 		return encText(s)
 	})
 	com := safe(func() string {
 		s := e.Commit().Text
-		if !utf8.ValidString(s) {
+		if !sawRaw && !utf8.ValidString(s) {
 			return "X~invalid"
 		}
 		return encText(s)
@@ -462,6 +462,7 @@ func showLinesBlock(b vh.Block) string {
 func evalCase(kind string, args []string) (res string) {
 	// every case starts from the package-level state the library has at start-up
 	vh.GemResetZero()
+	sawRaw = false
 	defer func() {
 		if r := recover(); r != nil {
 			res = "X~panic"
